@@ -54,6 +54,8 @@ func (t *AbsCaptureTimeExtension) Unmarshal(rawData []byte) error {
 	if len(rawData) >= absCaptureTimeExtendedExtensionSize {
 		offset := int64(binary.BigEndian.Uint64(rawData[8:16])) // nolint: gosec // G115 false positive
 		t.EstimatedCaptureClockOffset = &offset
+	} else {
+		t.EstimatedCaptureClockOffset = nil
 	}
 
 	return nil
